@@ -67,7 +67,13 @@ class Dispatch(GenRule):
             sym = f"match@{n}"
             s.ts["consults"] = s.ts.get("consults", ()) + ((t, term_of(pos[0]) if pos else "?", s.ts.get("host_is_ip"), sym,
                                                            tuple(sorted(((k, v) for k, v in s.ts.items() if isinstance(k, tuple) and k[0] == "cmp"), key=lambda kv: str(kv[0])))),)
-            return [Out("normal", s, tv(sym))]
+            outs = [Out("normal", s, tv(sym))]
+            if t == "_dnsname_match":
+                # the DNS matcher refuses a name with too many wildcards by raising (its own rows: C08-R1)
+                s2 = s.copy()
+                s2.log(node, "_dnsname_match raises CertificateError (too many wildcards)")
+                outs.append(Out("raise", s2, exc(f"{MH}.CertificateError")))
+            return outs
         if isinstance(node.func, ast.Attribute) and node.func.attr == "get" and recv is not None and recv.sym == "p:cert" and pos and pos[0].kind == "const":
             return [Out("normal", st, tv(f"cert[{pos[0].val!r}]"))]
         return super().call_hook(it, st, node, recv, pos, kw)
